@@ -1,19 +1,51 @@
-//! Verification model of std::collections::{HashMap, HashSet}: fixed-capacity slot array, no heap,
-//! no MaybeUninit, concrete-index access only.
+//! Verification model of std::collections::{HashMap, HashSet} (and, where a job asks for it, Vec):
+//! fixed-capacity slot arrays, no heap, no MaybeUninit, concrete-index access only.
+//!
+//! CBMC-specific rules this file follows (each one was the difference between seconds and out-of-memory):
+//!  * slots are `#[repr(u8)] enum Slot<T> { Empty, Full(T) }` -- an explicitly tagged union. `Option<(K, V)>` lets
+//!    rustc hide the discriminant in a niche of K or V (e.g. an enum key such as GraphId); Kani then reads and
+//!    writes the discriminant through byte offsets, CBMC loses field sensitivity and every write becomes a
+//!    byte_update of the whole enclosing object (measured: 13x more SAT variables for one entry chain);
+//!  * arrays are built with `[const { Slot::Empty }; CAP]`, Clone is a hand-written index loop (array::from_fn /
+//!    derived array Clone go through MaybeUninit);
+//!  * each map owns its slot array through a Box: one CBMC object per map. With the array stored inline, a write
+//!    through a reference into a nested map updates the ROOT object (e.g. the whole DatasetIndex), which destroys
+//!    constant propagation for its other fields (measured: 1 / 2 / 3 entry chains on sibling fields = 22k / 282k /
+//!    640k SAT variables inline, 63k / 128k / 188k boxed). The box is a fixed-size allocation, never resized;
+//!  * every lookup is `while i < CAP` over a CONCRETE index; `&mut` results are re-borrowed with `&mut
+//!    self.slots[i]` (concrete `i`) inside the branch that returns, never `slots[symbolic]`, no raw pointers;
+//!  * capacity overflow is `kani::assume(false)`: histories needing more keys are outside the claim.
 use std::borrow::Borrow;
 pub const CAP: usize = 3; // @CAP@ (patched per job by vk)
 
+#[repr(u8)]
 #[derive(Debug)]
-pub struct HashMap<K, V> { slots: [Option<(K, V)>; CAP] }
-impl<K: Clone, V: Clone> Clone for HashMap<K, V> { fn clone(&self) -> Self { let mut m = HashMap { slots: [const { None }; CAP] }; let mut i = 0; while i < CAP { if let Some((k, v)) = &self.slots[i] { m.slots[i] = Some((k.clone(), v.clone())); } i += 1; } m } }
-impl<K, V> Default for HashMap<K, V> { fn default() -> Self { HashMap { slots: [const { None }; CAP] } } }
+pub enum Slot<T> { Empty = 0, Full(T) = 1 }
+impl<T> Slot<T> {
+    #[inline] pub fn is_full(&self) -> bool { matches!(self, Slot::Full(_)) }
+    #[inline] pub fn get(&self) -> Option<&T> { match self { Slot::Full(x) => Some(x), Slot::Empty => None } }
+    #[inline] pub fn get_mut(&mut self) -> Option<&mut T> { match self { Slot::Full(x) => Some(x), Slot::Empty => None } }
+    #[inline] pub fn take(&mut self) -> Option<T> { match std::mem::replace(self, Slot::Empty) { Slot::Full(x) => Some(x), Slot::Empty => None } }
+}
 
-pub enum Entry<'a, K, V> { Occupied(&'a mut V), Vacant(&'a mut Option<(K, V)>, K) }
+#[derive(Debug)]
+pub struct HashMap<K, V> { slots: Box<[Slot<(K, V)>; CAP]> }
+impl<K: Clone, V: Clone> Clone for HashMap<K, V> {
+    fn clone(&self) -> Self {
+        let mut m = HashMap { slots: Box::new([const { Slot::Empty }; CAP]) };
+        let mut i = 0;
+        while i < CAP { if let Slot::Full((k, v)) = &self.slots[i] { m.slots[i] = Slot::Full((k.clone(), v.clone())); } i += 1; }
+        m
+    }
+}
+impl<K, V> Default for HashMap<K, V> { fn default() -> Self { HashMap { slots: Box::new([const { Slot::Empty }; CAP]) } } }
+
+pub enum Entry<'a, K, V> { Occupied(&'a mut V), Vacant(&'a mut Slot<(K, V)>, K) }
 impl<'a, K, V> Entry<'a, K, V> {
     pub fn or_insert_with<F: FnOnce() -> V>(self, f: F) -> &'a mut V {
         match self {
             Entry::Occupied(r) => r,
-            Entry::Vacant(slot, k) => { *slot = Some((k, f())); match slot { Some(p) => &mut p.1, None => unreachable!() } }
+            Entry::Vacant(slot, k) => { *slot = Slot::Full((k, f())); match slot { Slot::Full(p) => &mut p.1, Slot::Empty => unreachable!() } }
         }
     }
     pub fn or_insert(self, v: V) -> &'a mut V { self.or_insert_with(|| v) }
@@ -28,20 +60,21 @@ fn overflow() -> ! {
 
 impl<K: Eq, V> HashMap<K, V> {
     pub fn new() -> Self { Self::default() }
-    pub fn len(&self) -> usize { let mut n = 0; let mut i = 0; while i < CAP { if self.slots[i].is_some() { n += 1; } i += 1; } n }
-    pub fn is_empty(&self) -> bool { let mut i = 0; while i < CAP { if self.slots[i].is_some() { return false; } i += 1; } true }
-    pub fn clear(&mut self) { let mut i = 0; while i < CAP { self.slots[i] = None; i += 1; } }
+    pub fn with_capacity(_n: usize) -> Self { Self::default() }
+    pub fn reserve(&mut self, _n: usize) {}
+    pub fn len(&self) -> usize { let mut n = 0; let mut i = 0; while i < CAP { if self.slots[i].is_full() { n += 1; } i += 1; } n }
+    pub fn is_empty(&self) -> bool { let mut i = 0; while i < CAP { if self.slots[i].is_full() { return false; } i += 1; } true }
+    pub fn clear(&mut self) { let mut i = 0; while i < CAP { self.slots[i] = Slot::Empty; i += 1; } }
     pub fn get<Q: ?Sized + Eq>(&self, k: &Q) -> Option<&V> where K: Borrow<Q> {
         let mut i = 0;
-        while i < CAP { if let Some((kk, v)) = &self.slots[i] { if kk.borrow() == k { return Some(v); } } i += 1; }
+        while i < CAP { if let Slot::Full((kk, v)) = &self.slots[i] { if kk.borrow() == k { return Some(v); } } i += 1; }
         None
     }
     pub fn get_mut<Q: ?Sized + Eq>(&mut self, k: &Q) -> Option<&mut V> where K: Borrow<Q> {
-        let p = self.slots.as_mut_ptr();
         let mut i = 0;
         while i < CAP {
-            let slot: &mut Option<(K, V)> = unsafe { &mut *p.add(i) };
-            if let Some((kk, v)) = slot { if (*kk).borrow() == k { return Some(v); } }
+            let hit = match &self.slots[i] { Slot::Full((kk, _)) => kk.borrow() == k, Slot::Empty => false };
+            if hit { return match &mut self.slots[i] { Slot::Full((_, v)) => Some(v), Slot::Empty => None }; }
             i += 1;
         }
         None
@@ -49,32 +82,30 @@ impl<K: Eq, V> HashMap<K, V> {
     pub fn contains_key<Q: ?Sized + Eq>(&self, k: &Q) -> bool where K: Borrow<Q> { self.get(k).is_some() }
     pub fn insert(&mut self, k: K, v: V) -> Option<V> {
         let mut i = 0;
-        while i < CAP { if let Some((kk, vv)) = &mut self.slots[i] { if *kk == k { return Some(std::mem::replace(vv, v)); } } i += 1; }
+        while i < CAP { if let Slot::Full((kk, vv)) = &mut self.slots[i] { if *kk == k { return Some(std::mem::replace(vv, v)); } } i += 1; }
         let mut i = 0;
-        while i < CAP { if self.slots[i].is_none() { self.slots[i] = Some((k, v)); return None; } i += 1; }
+        while i < CAP { if !self.slots[i].is_full() { self.slots[i] = Slot::Full((k, v)); return None; } i += 1; }
         overflow()
     }
     pub fn remove<Q: ?Sized + Eq>(&mut self, k: &Q) -> Option<V> where K: Borrow<Q> {
         let mut i = 0;
         while i < CAP {
-            let hit = match &self.slots[i] { Some((kk, _)) => kk.borrow() == k, None => false };
+            let hit = match &self.slots[i] { Slot::Full((kk, _)) => kk.borrow() == k, Slot::Empty => false };
             if hit { return match self.slots[i].take() { Some(p) => Some(p.1), None => None }; }
             i += 1;
         }
         None
     }
     pub fn entry(&mut self, k: K) -> Entry<'_, K, V> {
-        let p = self.slots.as_mut_ptr();
         let mut i = 0;
         while i < CAP {
-            let slot: &mut Option<(K, V)> = unsafe { &mut *p.add(i) };
-            if let Some((kk, v)) = slot { if *kk == k { return Entry::Occupied(v); } }
+            let hit = match &self.slots[i] { Slot::Full((kk, _)) => *kk == k, Slot::Empty => false };
+            if hit { return match &mut self.slots[i] { Slot::Full((_, v)) => Entry::Occupied(v), Slot::Empty => unreachable!() }; }
             i += 1;
         }
         let mut i = 0;
         while i < CAP {
-            let slot: &mut Option<(K, V)> = unsafe { &mut *p.add(i) };
-            if slot.is_none() { return Entry::Vacant(slot, k); }
+            if !self.slots[i].is_full() { return Entry::Vacant(&mut self.slots[i], k); }
             i += 1;
         }
         overflow()
@@ -82,66 +113,82 @@ impl<K: Eq, V> HashMap<K, V> {
     pub fn iter(&self) -> Iter<'_, K, V> { Iter { m: self, i: 0 } }
     pub fn keys(&self) -> hash_map::Keys<'_, K, V> { hash_map::Keys { it: self.iter() } }
     pub fn values(&self) -> impl Iterator<Item = &V> { self.iter().map(|(_, v)| v) }
+    pub fn values_mut(&mut self) -> impl Iterator<Item = &mut V> { self.slots.iter_mut().filter_map(|s| match s { Slot::Full((_, v)) => Some(v), Slot::Empty => None }) }
+    pub fn into_keys(self) -> hash_map::IntoKeys<K, V> { hash_map::IntoKeys { it: hash_map::IntoIter { s: *self.slots, i: 0 } } }
 }
 pub struct Iter<'a, K, V> { m: &'a HashMap<K, V>, i: usize }
 impl<'a, K, V> Iterator for Iter<'a, K, V> {
     type Item = (&'a K, &'a V);
     fn next(&mut self) -> Option<(&'a K, &'a V)> {
-        while self.i < CAP { let j = self.i; self.i += 1; if let Some((k, v)) = &self.m.slots[j] { return Some((k, v)); } }
+        while self.i < CAP { let j = self.i; self.i += 1; if let Slot::Full((k, v)) = &self.m.slots[j] { return Some((k, v)); } }
         None
     }
 }
 impl<'a, K: Eq, V> IntoIterator for &'a HashMap<K, V> { type Item = (&'a K, &'a V); type IntoIter = Iter<'a, K, V>; fn into_iter(self) -> Iter<'a, K, V> { self.iter() } }
+impl<K, V> IntoIterator for HashMap<K, V> { type Item = (K, V); type IntoIter = hash_map::IntoIter<K, V>; fn into_iter(self) -> Self::IntoIter { hash_map::IntoIter { s: *self.slots, i: 0 } } }
+impl<K: Eq, V> FromIterator<(K, V)> for HashMap<K, V> { fn from_iter<I: IntoIterator<Item = (K, V)>>(it: I) -> Self { let mut m = Self::default(); for (k, v) in it { m.insert(k, v); } m } }
+impl<K: Eq, V> Extend<(K, V)> for HashMap<K, V> { fn extend<I: IntoIterator<Item = (K, V)>>(&mut self, it: I) { for (k, v) in it { self.insert(k, v); } } }
 impl<K: Eq, V: PartialEq> PartialEq for HashMap<K, V> {
     fn eq(&self, o: &Self) -> bool {
         if self.len() != o.len() { return false; }
         let mut i = 0;
-        while i < CAP { if let Some((k, v)) = &self.slots[i] { match o.get(k) { Some(v2) => { if v != v2 { return false; } } None => return false } } i += 1; }
+        while i < CAP { if let Slot::Full((k, v)) = &self.slots[i] { match o.get(k) { Some(v2) => { if v != v2 { return false; } } None => return false } } i += 1; }
         true
     }
 }
 impl<K: Eq, V: Eq> Eq for HashMap<K, V> {}
 
 #[derive(Debug)]
-pub struct HashSet<T> { slots: [Option<T>; CAP] }
-impl<T: Clone> Clone for HashSet<T> { fn clone(&self) -> Self { let mut m = HashSet { slots: [const { None }; CAP] }; let mut i = 0; while i < CAP { if let Some(x) = &self.slots[i] { m.slots[i] = Some(x.clone()); } i += 1; } m } }
-impl<T> Default for HashSet<T> { fn default() -> Self { HashSet { slots: [const { None }; CAP] } } }
+pub struct HashSet<T> { slots: Box<[Slot<T>; CAP]> }
+impl<T: Clone> Clone for HashSet<T> {
+    fn clone(&self) -> Self {
+        let mut m = HashSet { slots: Box::new([const { Slot::Empty }; CAP]) };
+        let mut i = 0;
+        while i < CAP { if let Slot::Full(x) = &self.slots[i] { m.slots[i] = Slot::Full(x.clone()); } i += 1; }
+        m
+    }
+}
+impl<T> Default for HashSet<T> { fn default() -> Self { HashSet { slots: Box::new([const { Slot::Empty }; CAP]) } } }
 impl<T: Eq> HashSet<T> {
     pub fn new() -> Self { Self::default() }
-    pub fn len(&self) -> usize { let mut n = 0; let mut i = 0; while i < CAP { if self.slots[i].is_some() { n += 1; } i += 1; } n }
-    pub fn is_empty(&self) -> bool { let mut i = 0; while i < CAP { if self.slots[i].is_some() { return false; } i += 1; } true }
-    pub fn clear(&mut self) { let mut i = 0; while i < CAP { self.slots[i] = None; i += 1; } }
+    pub fn with_capacity(_n: usize) -> Self { Self::default() }
+    pub fn len(&self) -> usize { let mut n = 0; let mut i = 0; while i < CAP { if self.slots[i].is_full() { n += 1; } i += 1; } n }
+    pub fn is_empty(&self) -> bool { let mut i = 0; while i < CAP { if self.slots[i].is_full() { return false; } i += 1; } true }
+    pub fn clear(&mut self) { let mut i = 0; while i < CAP { self.slots[i] = Slot::Empty; i += 1; } }
     pub fn contains<Q: ?Sized + Eq>(&self, k: &Q) -> bool where T: Borrow<Q> {
         let mut i = 0;
-        while i < CAP { if let Some(x) = &self.slots[i] { if x.borrow() == k { return true; } } i += 1; }
+        while i < CAP { if let Slot::Full(x) = &self.slots[i] { if x.borrow() == k { return true; } } i += 1; }
         false
     }
     pub fn insert(&mut self, v: T) -> bool {
         if self.contains(&v) { return false; }
         let mut i = 0;
-        while i < CAP { if self.slots[i].is_none() { self.slots[i] = Some(v); return true; } i += 1; }
+        while i < CAP { if !self.slots[i].is_full() { self.slots[i] = Slot::Full(v); return true; } i += 1; }
         overflow()
     }
     pub fn remove<Q: ?Sized + Eq>(&mut self, k: &Q) -> bool where T: Borrow<Q> {
         let mut i = 0;
         while i < CAP {
-            let hit = match &self.slots[i] { Some(x) => x.borrow() == k, None => false };
-            if hit { self.slots[i] = None; return true; }
+            let hit = match &self.slots[i] { Slot::Full(x) => x.borrow() == k, Slot::Empty => false };
+            if hit { self.slots[i] = Slot::Empty; return true; }
             i += 1;
         }
         false
     }
     pub fn iter(&self) -> SetIter<'_, T> { SetIter { s: self, i: 0 } }
+    pub fn is_subset(&self, o: &HashSet<T>) -> bool { let mut i = 0; while i < CAP { if let Slot::Full(x) = &self.slots[i] { if !o.contains(x) { return false; } } i += 1; } true }
+    pub fn is_superset(&self, o: &HashSet<T>) -> bool { o.is_subset(self) }
+    pub fn drain(&mut self) -> SetIntoIter<T> { let s = std::mem::take(self); s.into_iter() }
 }
 pub struct SetIter<'a, T> { s: &'a HashSet<T>, i: usize }
 impl<'a, T> Iterator for SetIter<'a, T> {
     type Item = &'a T;
     fn next(&mut self) -> Option<&'a T> {
-        while self.i < CAP { let j = self.i; self.i += 1; if let Some(x) = &self.s.slots[j] { return Some(x); } }
+        while self.i < CAP { let j = self.i; self.i += 1; if let Slot::Full(x) = &self.s.slots[j] { return Some(x); } }
         None
     }
 }
-pub struct SetIntoIter<T> { s: [Option<T>; CAP], i: usize }
+pub struct SetIntoIter<T> { s: [Slot<T>; CAP], i: usize }
 impl<T> Iterator for SetIntoIter<T> {
     type Item = T;
     fn next(&mut self) -> Option<T> {
@@ -149,27 +196,30 @@ impl<T> Iterator for SetIntoIter<T> {
         None
     }
 }
-impl<T> IntoIterator for HashSet<T> { type Item = T; type IntoIter = SetIntoIter<T>; fn into_iter(self) -> SetIntoIter<T> { SetIntoIter { s: self.slots, i: 0 } } }
+impl<T> IntoIterator for HashSet<T> { type Item = T; type IntoIter = SetIntoIter<T>; fn into_iter(self) -> SetIntoIter<T> { SetIntoIter { s: *self.slots, i: 0 } } }
 impl<'a, T: Eq> IntoIterator for &'a HashSet<T> { type Item = &'a T; type IntoIter = SetIter<'a, T>; fn into_iter(self) -> SetIter<'a, T> { self.iter() } }
 impl<T: Eq> FromIterator<T> for HashSet<T> { fn from_iter<I: IntoIterator<Item = T>>(it: I) -> Self { let mut s = Self::default(); for v in it { s.insert(v); } s } }
+impl<T: Eq> Extend<T> for HashSet<T> { fn extend<I: IntoIterator<Item = T>>(&mut self, it: I) { for v in it { self.insert(v); } } }
+impl<'a, T: Eq + Copy + 'a> Extend<&'a T> for HashSet<T> { fn extend<I: IntoIterator<Item = &'a T>>(&mut self, it: I) { for v in it { self.insert(*v); } } }
 impl<T: Eq> PartialEq for HashSet<T> {
     fn eq(&self, o: &Self) -> bool {
         if self.len() != o.len() { return false; }
         let mut i = 0;
-        while i < CAP { if let Some(x) = &self.slots[i] { if !o.contains(x) { return false; } } i += 1; }
+        while i < CAP { if let Slot::Full(x) = &self.slots[i] { if !o.contains(x) { return false; } } i += 1; }
         true
     }
 }
 impl<T: Eq> Eq for HashSet<T> {}
 
-impl<K: serde::Serialize, V: serde::Serialize> serde::Serialize for HashMap<K, V> {
-    fn serialize<S: serde::Serializer>(&self, s: S) -> Result<S::Ok, S::Error> { s.collect_seq(self.slots.iter()) }
+// serde passthrough (DatasetIndex and QuotedTripleStore derive Serialize/Deserialize); never reached by a harness
+impl<K: serde::Serialize + Eq, V: serde::Serialize> serde::Serialize for HashMap<K, V> {
+    fn serialize<S: serde::Serializer>(&self, s: S) -> Result<S::Ok, S::Error> { s.collect_seq(self.iter()) }
 }
 impl<'de, K: serde::Deserialize<'de> + Eq, V: serde::Deserialize<'de>> serde::Deserialize<'de> for HashMap<K, V> {
     fn deserialize<D: serde::Deserializer<'de>>(d: D) -> Result<Self, D::Error> { let v: Vec<(K, V)> = Vec::deserialize(d)?; let mut m = Self::default(); for (k, x) in v { m.insert(k, x); } Ok(m) }
 }
-impl<T: serde::Serialize> serde::Serialize for HashSet<T> {
-    fn serialize<S: serde::Serializer>(&self, s: S) -> Result<S::Ok, S::Error> { s.collect_seq(self.slots.iter()) }
+impl<T: serde::Serialize + Eq> serde::Serialize for HashSet<T> {
+    fn serialize<S: serde::Serializer>(&self, s: S) -> Result<S::Ok, S::Error> { s.collect_seq(self.iter()) }
 }
 impl<'de, T: serde::Deserialize<'de> + Eq> serde::Deserialize<'de> for HashSet<T> {
     fn deserialize<D: serde::Deserializer<'de>>(d: D) -> Result<Self, D::Error> { let v: Vec<T> = Vec::deserialize(d)?; Ok(v.into_iter().collect()) }
@@ -177,37 +227,166 @@ impl<'de, T: serde::Deserialize<'de> + Eq> serde::Deserialize<'de> for HashSet<T
 
 pub mod hash_map {
     pub use super::Iter;
+    use super::Slot;
     pub struct Keys<'a, K, V> { pub(super) it: super::Iter<'a, K, V> }
     impl<'a, K, V> Iterator for Keys<'a, K, V> { type Item = &'a K; fn next(&mut self) -> Option<&'a K> { match self.it.next() { Some((k, _)) => Some(k), None => None } } }
-    pub struct IntoIter<K, V> { pub(super) s: [Option<(K, V)>; super::CAP], pub(super) i: usize }
+    pub struct IntoIter<K, V> { pub(super) s: [Slot<(K, V)>; super::CAP], pub(super) i: usize }
     impl<K, V> Iterator for IntoIter<K, V> { type Item = (K, V); fn next(&mut self) -> Option<(K, V)> { while self.i < super::CAP { let j = self.i; self.i += 1; if let Some(p) = self.s[j].take() { return Some(p); } } None } }
     pub struct IntoKeys<K, V> { pub(super) it: IntoIter<K, V> }
     impl<K, V> Iterator for IntoKeys<K, V> { type Item = K; fn next(&mut self) -> Option<K> { match self.it.next() { Some((k, _)) => Some(k), None => None } } }
 }
-impl<K: Eq, V> HashMap<K, V> {
-    pub fn into_keys(self) -> hash_map::IntoKeys<K, V> { hash_map::IntoKeys { it: hash_map::IntoIter { s: self.slots, i: 0 } } }
-}
-impl<K, V> IntoIterator for HashMap<K, V> { type Item = (K, V); type IntoIter = hash_map::IntoIter<K, V>; fn into_iter(self) -> Self::IntoIter { hash_map::IntoIter { s: self.slots, i: 0 } } }
-impl<K: Eq, V> FromIterator<(K, V)> for HashMap<K, V> { fn from_iter<I: IntoIterator<Item = (K, V)>>(it: I) -> Self { let mut m = Self::default(); for (k, v) in it { m.insert(k, v); } m } }
-impl<T: Eq> HashSet<T> {
-    pub fn is_subset(&self, o: &HashSet<T>) -> bool { let mut i = 0; while i < CAP { if let Some(x) = &self.slots[i] { if !o.contains(x) { return false; } } i += 1; } true }
-    pub fn is_superset(&self, o: &HashSet<T>) -> bool { o.is_subset(self) }
-    pub fn drain(&mut self) -> SetIntoIter<T> { let s = std::mem::take(self); s.into_iter() }
+
+// ---- symbolic construction and structural predicates for inductive-step harnesses (verification only).
+// Harnesses reach them through `vk::...`; in a native replay build (real std containers) the driver supplies
+// /verif/model/std_helpers.rs with the same signatures, consuming kani::any() values in the same order.
+pub mod helpers {
+    use super::{HashMap, HashSet, Slot, CAP};
+    /// an arbitrary map: every slot independently empty or holding (fk(), fv()). Distinctness of keys is NOT
+    /// implied; harnesses assume `keys_distinct` (std::collections::HashMap guarantees it).
+    #[cfg(kani)]
+    pub fn any_map<K: Eq, V, FK: FnMut() -> K, FV: FnMut() -> V>(mut fk: FK, mut fv: FV) -> HashMap<K, V> {
+        let mut m = HashMap { slots: Box::new([const { Slot::Empty }; CAP]) };
+        let mut i = 0;
+        while i < CAP { if kani::any() { m.slots[i] = Slot::Full((fk(), fv())); } i += 1; }
+        m
+    }
+    #[cfg(kani)]
+    pub fn any_set<T: Eq, F: FnMut() -> T>(mut f: F) -> HashSet<T> {
+        let mut m = HashSet { slots: Box::new([const { Slot::Empty }; CAP]) };
+        let mut i = 0;
+        while i < CAP { if kani::any() { m.slots[i] = Slot::Full(f()); } i += 1; }
+        m
+    }
+    pub fn keys_distinct<K: Eq, V>(m: &HashMap<K, V>) -> bool {
+        let mut i = 0;
+        while i < CAP {
+            let mut j = 0;
+            while j < i {
+                if let (Slot::Full((a, _)), Slot::Full((b, _))) = (&m.slots[i], &m.slots[j]) { if a == b { return false; } }
+                j += 1;
+            }
+            i += 1;
+        }
+        true
+    }
+    /// conjunction of `f` over the values (concrete slot loop)
+    pub fn all_values<K: Eq, V, F: FnMut(&V) -> bool>(m: &HashMap<K, V>, mut f: F) -> bool {
+        let mut ok = true;
+        let mut i = 0;
+        while i < CAP { if let Slot::Full((_, v)) = &m.slots[i] { if !f(v) { ok = false; } } i += 1; }
+        ok
+    }
+    pub fn elems_distinct<T: Eq>(s: &HashSet<T>) -> bool {
+        let mut i = 0;
+        while i < CAP {
+            let mut j = 0;
+            while j < i {
+                if let (Slot::Full(a), Slot::Full(b)) = (&s.slots[i], &s.slots[j]) { if a == b { return false; } }
+                j += 1;
+            }
+            i += 1;
+        }
+        true
+    }
 }
 
-impl<T: Eq> Extend<T> for HashSet<T> { fn extend<I: IntoIterator<Item = T>>(&mut self, it: I) { for v in it { self.insert(v); } } }
-impl<'a, T: Eq + Copy + 'a> Extend<&'a T> for HashSet<T> { fn extend<I: IntoIterator<Item = &'a T>>(&mut self, it: I) { for v in it { self.insert(*v); } } }
-impl<K: Eq, V> Extend<(K, V)> for HashMap<K, V> { fn extend<I: IntoIterator<Item = (K, V)>>(&mut self, it: I) { for (k, v) in it { self.insert(k, v); } } }
-pub struct ValuesMut<'a, K, V> { p: *mut Option<(K, V)>, i: usize, _m: std::marker::PhantomData<&'a mut V> }
-impl<'a, K: 'a, V: 'a> Iterator for ValuesMut<'a, K, V> {
-    type Item = &'a mut V;
-    fn next(&mut self) -> Option<&'a mut V> {
-        while self.i < CAP { let j = self.i; self.i += 1; let slot: &'a mut Option<(K, V)> = unsafe { &mut *self.p.add(j) }; if let Some((_, v)) = slot { return Some(v); } }
+// ---- fixed-capacity model of Vec (only where a job asks for it: `"t1_vec": [...]`); same CBMC-friendly rules
+pub const VCAP: usize = 8; // @VCAP@ (patched per job by vk)
+
+pub struct VVec<T> { slots: Box<[Slot<T>; VCAP]>, len: usize }
+impl<T> Default for VVec<T> { fn default() -> Self { VVec { slots: Box::new([const { Slot::Empty }; VCAP]), len: 0 } } }
+impl<T: Clone> Clone for VVec<T> {
+    fn clone(&self) -> Self {
+        let mut v = VVec { slots: Box::new([const { Slot::Empty }; VCAP]), len: self.len };
+        let mut i = 0;
+        while i < VCAP { if let Slot::Full(x) = &self.slots[i] { v.slots[i] = Slot::Full(x.clone()); } i += 1; }
+        v
+    }
+}
+impl<T> VVec<T> {
+    pub fn new() -> Self { Self::default() }
+    pub fn with_capacity(_n: usize) -> Self { Self::default() }
+    pub fn len(&self) -> usize { self.len }
+    pub fn is_empty(&self) -> bool { self.len == 0 }
+    pub fn push(&mut self, x: T) {
+        if self.len >= VCAP { overflow() }
+        // write at position `len` through a concrete-index loop (never slots[symbolic])
+        let mut x = Some(x);
+        let mut i = 0;
+        while i < VCAP { if i == self.len { if let Some(y) = x.take() { self.slots[i] = Slot::Full(y); } } i += 1; }
+        self.len += 1;
+    }
+    pub fn get(&self, k: usize) -> Option<&T> {
+        let mut i = 0;
+        while i < VCAP { if i == k { return self.slots[i].get(); } i += 1; }
+        None
+    }
+    pub fn iter(&self) -> VecIter<'_, T> { VecIter { v: self, i: 0 } }
+    pub fn clear(&mut self) { let mut i = 0; while i < VCAP { self.slots[i] = Slot::Empty; i += 1; } self.len = 0; }
+    pub fn reserve(&mut self, _n: usize) {}
+    pub fn contains(&self, x: &T) -> bool where T: PartialEq {
+        let mut i = 0;
+        while i < VCAP { if let Slot::Full(y) = &self.slots[i] { if y == x { return true; } } i += 1; }
+        false
+    }
+    /// insertion sort over the occupied prefix (concrete indices, symbolic comparisons)
+    pub fn sort_unstable(&mut self) where T: Ord {
+        let mut i = 1;
+        while i < VCAP {
+            let mut j = i;
+            while j > 0 {
+                let swap = match (&self.slots[j - 1], &self.slots[j]) { (Slot::Full(a), Slot::Full(b)) => a > b, _ => false };
+                if swap { self.slots.swap(j - 1, j); }
+                j -= 1;
+            }
+            i += 1;
+        }
+    }
+    pub fn sort(&mut self) where T: Ord { self.sort_unstable() }
+}
+impl<T> std::ops::Index<usize> for VVec<T> {
+    type Output = T;
+    fn index(&self, k: usize) -> &T { match self.get(k) { Some(x) => x, None => panic!("index out of bounds") } }
+}
+pub struct VecIter<'a, T> { v: &'a VVec<T>, i: usize }
+impl<'a, T> Iterator for VecIter<'a, T> {
+    type Item = &'a T;
+    fn next(&mut self) -> Option<&'a T> {
+        // `i` only ever takes concrete values along a path: the loop body is entered once per unrolling
+        while self.i < VCAP { let j = self.i; self.i += 1; if let Slot::Full(x) = &self.v.slots[j] { return Some(x); } else { return None; } }
         None
     }
 }
-impl<K: Eq, V> HashMap<K, V> {
-    pub fn values_mut(&mut self) -> ValuesMut<'_, K, V> { ValuesMut { p: self.slots.as_mut_ptr(), i: 0, _m: std::marker::PhantomData } }
-    pub fn with_capacity(_n: usize) -> Self { Self::default() }
-    pub fn reserve(&mut self, _n: usize) {}
+pub struct VecIntoIter<T> { s: [Slot<T>; VCAP], i: usize }
+impl<T> Iterator for VecIntoIter<T> {
+    type Item = T;
+    fn next(&mut self) -> Option<T> {
+        while self.i < VCAP { let j = self.i; self.i += 1; return self.s[j].take(); }
+        None
+    }
 }
+impl<T> IntoIterator for VVec<T> { type Item = T; type IntoIter = VecIntoIter<T>; fn into_iter(self) -> VecIntoIter<T> { VecIntoIter { s: *self.slots, i: 0 } } }
+impl<'a, T> IntoIterator for &'a VVec<T> { type Item = &'a T; type IntoIter = VecIter<'a, T>; fn into_iter(self) -> VecIter<'a, T> { self.iter() } }
+impl<T> Extend<T> for VVec<T> { fn extend<I: IntoIterator<Item = T>>(&mut self, it: I) { for x in it { self.push(x); } } }
+impl<T> FromIterator<T> for VVec<T> { fn from_iter<I: IntoIterator<Item = T>>(it: I) -> Self { let mut v = Self::default(); for x in it { v.push(x); } v } }
+impl<T: PartialEq> PartialEq for VVec<T> {
+    fn eq(&self, o: &Self) -> bool {
+        if self.len != o.len { return false; }
+        let mut i = 0;
+        while i < VCAP {
+            let same = match (&self.slots[i], &o.slots[i]) { (Slot::Full(a), Slot::Full(b)) => a == b, (Slot::Empty, Slot::Empty) => true, _ => false };
+            if !same { return false; }
+            i += 1;
+        }
+        true
+    }
+}
+impl<T: Eq> Eq for VVec<T> {}
+impl<T: std::fmt::Debug> std::fmt::Debug for VVec<T> { fn fmt(&self, f: &mut std::fmt::Formatter<'_>) -> std::fmt::Result { f.write_str("vcoll::Vec") } }
+#[macro_export]
+macro_rules! vvec {
+    () => { $crate::vcoll::VVec::new() };
+    ($($x:expr),+ $(,)?) => {{ let mut v = $crate::vcoll::VVec::new(); $( v.push($x); )+ v }};
+}
+/// `use crate::vcoll::vecmodel::Vec;` shadows the prelude Vec in a rewritten file
+pub mod vecmodel { pub use super::VVec as Vec; }
